@@ -193,6 +193,22 @@ Definition cmp_eval (op : cmpop) (a b : Q) : bool :=
 Definition time_cmp (op : cmpop) (t : Q) (other : operand) (swap : bool) : bool :=
   if swap then cmp_eval op (cmp_value other) t else cmp_eval op t (cmp_value other).
 
+(* all six comparisons of one pair (round 4) *)
+Record cmp6 := mkCmp6 { c_lt : bool; c_le : bool; c_gt : bool; c_ge : bool; c_eq : bool; c_ne : bool }.
+Definition cmp6_of (a b : Q) : cmp6 :=
+  mkCmp6 (cmp_eval CLt a b) (cmp_eval CLe a b) (cmp_eval CGt a b) (cmp_eval CGe a b) (cmp_eval CEq a b) (cmp_eval CNe a b).
+Definition time_cmp6 (t : Q) (other : operand) (swap : bool) : cmp6 :=
+  mkCmp6 (time_cmp CLt t other swap) (time_cmp CLe t other swap) (time_cmp CGt t other swap) (time_cmp CGe t other swap)
+         (time_cmp CEq t other swap) (time_cmp CNe t other swap).
+(* laws that do not mention any value *)
+Definition exactly_one (a b c : bool) : bool := (a && negb b && negb c) || (negb a && b && negb c) || (negb a && negb b && c).
+Definition cmp6_consistent (c : cmp6) : bool :=
+  exactly_one (c_lt c) (c_eq c) (c_gt c) && Bool.eqb (c_le c) (c_lt c || c_eq c) && Bool.eqb (c_ge c) (c_gt c || c_eq c)
+  && Bool.eqb (c_ne c) (negb (c_eq c)).
+Definition cmp6_mirror (f r : cmp6) : bool :=
+  Bool.eqb (c_lt r) (c_gt f) && Bool.eqb (c_gt r) (c_lt f) && Bool.eqb (c_le r) (c_ge f) && Bool.eqb (c_ge r) (c_le f)
+  && Bool.eqb (c_eq r) (c_eq f) && Bool.eqb (c_ne r) (c_ne f).
+
 Definition unop_eval (op : unop) (a : Q) : Q :=
   match op with
   | Neg => - a
